@@ -77,7 +77,7 @@ def encode_cell(codec, val):
     raise EncodingError("cannot encode %s with codec %s" % (sx(val), codec))
 
 
-VARIANTS = {"Option": {"None": 0, "Some": 1}, "Result": {"Ok": 0, "Err": 1},
+VARIANTS = {"MMapMetaSubscriber": {"Dynamic": 0, "Fixed": 1}, "Option": {"None": 0, "Some": 1}, "Result": {"Ok": 0, "Err": 1},
             "RetryResult": {"Ok": 0, "Transient": 1, "Fatal": 2}, "Poll": {"Ready": 0, "Pending": 1}}
 UNIT = ()
 
@@ -251,6 +251,10 @@ class Interp:
             return ("local", b[1], b[2], b[3] + (ast[2],))
         if k == "downcast":
             b = self.eval_place(st, ast[1])
+            if b[0] == "mem" and not b[1].sub and b[1].idx is None:
+                d0 = self.mem.get(b[1].key())
+                if d0 is not None and d0["kind"] == "frozen" and isinstance(d0["value"], Enum) and not d0.get("codec"):
+                    return ("mem", Ptr(b[1].root, b[1].path + ("v:" + ast[2],)))          # payload of a shared enum with a constant discriminant
             if b[0] == "mem":
                 p = b[1]
                 return ("mem", Ptr(p.root, p.path, p.idx, p.sub + (("variant", ast[2]),)))
@@ -579,6 +583,8 @@ class Interp:
         # ---- integers
         if re.search(r"<impl [ui]\d+>::overflowing_sub$|<impl [ui]size>::overflowing_sub$", c): x, y = a(0), a(1); used("overflowing_sub"); return ("val", Agg("tuple", [x - y, z3.ULT(x, y)]))
         if re.search(r"<impl [ui](\d+|size)>::overflowing_add$", c): x, y = a(0), a(1); used("overflowing_add"); return ("val", Agg("tuple", [x + y, z3.ULT(x + y, x)]))
+        if re.search(r"<impl u(\d+|size)>::saturating_sub$", c): x, y = a(0), a(1); used("saturating_sub (unsigned)"); return ("val", z3.If(z3.ULT(x, y), BV(x.size(), 0), x - y))
+        if re.search(r"<impl u(\d+|size)>::saturating_add$", c): x, y = a(0), a(1); used("saturating_add (unsigned)"); return ("val", z3.If(z3.ULT(x + y, x), BV(x.size(), (1 << x.size()) - 1), x + y))
         if re.search(r"<impl [ui](\d+|size)>::wrapping_sub$", c): used("wrapping_sub"); return ("val", a(0) - a(1))
         if re.search(r"<impl [ui](\d+|size)>::wrapping_add$", c): used("wrapping_add"); return ("val", a(0) + a(1))
         if re.search(r"(<impl u(\d+|size)>|std::cmp|core::cmp|Ord)::max$", c) or re.match(r"^<u(\d+|size) as Ord>::max$", c):
@@ -632,6 +638,19 @@ class Interp:
                 used("thread::sleep -> path assumed unreachable within the bounds (reported if the solver reaches it)")
                 return ("panic", "ASSUMED-UNREACHABLE: thread::sleep (sleep-and-retry path)")
             used("thread::sleep -> no effect"); return ("val", UNIT)
+        if re.match(r"^<std::ops::Range<\w+> as IntoIterator>::into_iter$", callee): return ("val", a(0))
+        if re.match(r"^<std::ops::Range<\w+> as Iterator>::next$", callee):
+            r_ = a(0)
+            if not isinstance(r_, LRef): raise EncodingError("Range::next needs a reference to a local range")
+            rg = self.project(st.frames[r_.depth].loc[r_.name], r_.proj)
+            if not (isinstance(rg, Agg) and rg.kind == "Range"): raise EncodingError("Range::next on " + sx(rg))
+            cur, end = rg.fields; used("Range<uN>::next")
+            more = z3.simplify(z3.ULT(cur, end))
+            if not (z3.is_true(more) or z3.is_false(more)): raise EncodingError("Range iteration with a symbolic bound (make the bound a constant of the query)")
+            if z3.is_true(more):
+                self.write_local(st, r_.depth, r_.name, r_.proj, Agg("Range", [z3.simplify(cur + 1), end]))
+                return ("val", opt_some(cur))
+            return ("val", opt_none())
         if re.match(r"^<std::slice::Iter<.*> as Iterator>::next$", callee, re.S):
             r_ = a(0)
             if not isinstance(r_, LRef): raise EncodingError("Iter::next needs a reference to a local iterator")
@@ -693,6 +712,9 @@ class Interp:
                 return ("val", Enum("Result", z3.If(okc, BV(64, 0), BV(64, 1)), {0: [cur], 1: [cur]}))
             if not isinstance(p, Ptr): raise EncodingError("atomic op on non-shared pointer " + sx(p))
             d = self.memdecl(p, "atomic " + m.group(2))
+            if d["kind"] == "frozen":
+                if m.group(2) != "load": raise EncodingError("write to a location the query declares constant: " + repr(p))
+                used("Atomic::load of a location that is constant in this query"); return ("val", d["value"])
             op = m.group(2); used("Atomic::" + op)
             if op == "load": return ("vis", ("aload", p.key()))
             if op == "store": return ("vis", ("astore", p.key(), a(1)))
